@@ -35,7 +35,8 @@ Ops ==
   \cup [op : {"append_column"}, c : ColStyles, n : Reps]
   \cup [op : {"delete_column"}, x : Xs]
   \cup [op : {"set_values"}, x : 0..1, y : Ys, m : {<<<<1>>>>, <<<<1, 2>>, <<>>, <<E>>>>}]
-  \cup [op : {"transpose"}]
+  \cup [op : {"transpose", "clear"}]
+  \cup [op : {"extend_rows"}, rs : {<<>>, <<[r |-> <<>>, n |-> 1]>>, <<[r |-> <<1>>, n |-> 2], [r |-> <<1, 2>>, n |-> 1]>>}]
   \cup [op : {"rstrip"}, c : {0, 1}]
 
 Small(tt) == /\ Height(tt) <= MaxH
@@ -64,7 +65,8 @@ View == t
 (* (0)  - only the action property below is.)                              *)
 InvWellFormed == WellFormed(t)
 FirstRowDeclaresColumns ==
-    [][ (Height(t) = 0 /\ Height(t') > 0) => Width(t') > 0 ]_vars
+    [][ (Height(t) = 0 /\ Height(t') > 0) =>
+            (Width(t') > 0 \/ (op'.op = "extend_rows" /\ MaxRowWidth(t') = 0)) ]_vars   \* rows without any cell declare nothing
 
 (* C01: an operation addressed to one row / one cell changes that row only  *)
 RowLocalOps == {"set_cell", "insert_cell", "append_cell", "delete_cell"}
@@ -101,7 +103,7 @@ ColumnShift ==
 (* C07: reported size = what the rows/columns add up to; rows ops never     *)
 (* shrink the declared width                                                *)
 WidthMonotone ==
-    [][ op'.op \notin {"delete_column", "transpose", "rstrip"} => Width(t') >= Width(t) ]_vars
+    [][ op'.op \notin {"delete_column", "transpose", "rstrip", "clear"} => Width(t') >= Width(t) ]_vars
 
 (* C17 laws at the abstract level *)
 PopulatedMatrix(tt) == [y \in 1..Height(tt) |-> PadTo(tt.rows[y], MaxRowWidth(tt), E)]
